@@ -1136,6 +1136,10 @@ def order(ctx):
                         bad.append(c)
             for fb in F.family(root.key):
                 for c in fb.calls(*REORDER):
+                    # a set / map that IS the representation of a field of some type of the crate (a registry kept in a BTreeSet,
+                    # say) has no order of its own to lose: walking it or inserting into it reorders nothing
+                    if c.is_(r'^std::collections::(BTreeMap|BTreeSet)::') and _is_field_container(F, c):
+                        continue
                     # sorting the entries of an unordered map for determinism is harmless
                     sl = backward_slice(fb, c.args[:1], follow_mutarg=True)
                     src_unordered = any(('HashMap' in (x.self_ty or x.full) or 'HashSet' in (x.self_ty or x.full)) and x.is_(r'::(iter|keys|values|into_iter)$')
@@ -1149,6 +1153,19 @@ def order(ctx):
                       'chains) no longer round-trip' % (side, name, bad[0].name if bad else '', bad[0].ln if bad else 0),
                       'no sort / rev', root.where())
     ctx.floor(n, 40 if _ONLY[0] is None else 2, 'write / read bodies')
+
+
+def _is_field_container(F, c):
+    m = re.search(r'(BTreeMap|BTreeSet)::<(.*?)>::[a-z_]+(::<.*)?$', c.full)
+    if not m:
+        return False
+    want = '%s<%s' % (m.group(1), re.sub(r"'[a-z_0-9]+ ", '', m.group(2)))
+    for a in F.adts.values():
+        for v in a['variants']:
+            for f in v['fields']:
+                if want in re.sub(r"'[a-z_0-9]+ ", '', f['ty']).replace(', std::alloc::Global', ''):
+                    return True
+    return False
 
 
 @rule('C13', 'signature-compat', configs=('default',))
